@@ -607,16 +607,27 @@ def _child(root, scn, step, resfile, outf, errf):
     # mounts seen by trash-restore (psutil) ; TRASH_VOLUMES is honoured by list/empty/rm themselves
     import psutil
 
+    # every mount has a file-system type: physical ones (what psutil lists without all=True) and the network / fuse types
+    # trash-cli accepts by name (fstab/mount_points_listing.py); the type is a function of the mount point, so runs replay
+    import zlib
+    _TYPES = ['ext4', 'ext4', 'vfat', 'nfs4', 'fuse.gocryptfs', 'p9', 'btrfs', 'ext4']
+    _PHYSICAL = ('ext4', 'vfat', 'btrfs')
+
+    def _fstype(mp):
+        return 'ext4' if mp == '/' else _TYPES[zlib.crc32(mp.encode('utf-8', 'surrogateescape')) % len(_TYPES)]
+
     class _P:
         def __init__(self, mp):
-            self.device, self.mountpoint, self.fstype, self.opts = '/dev/v' + mp.replace('/', '_'), mp, 'ext4', 'rw'
+            self.device, self.mountpoint, self.fstype, self.opts = '/dev/v' + mp.replace('/', '_'), mp, _fstype(mp), 'rw'
     vols = step.get('listed_mounts')
     if vols is None:
         vols = ['/'] + sorted(scn.get('mounts') or [])
 
     def disk_partitions(all=False):
-        shim.trace.append(['list_mounts', [], ['ok', list(vols)]])
-        return [_P(m) for m in vols]
+        # the recorded answer is what the caller may use of it: every mount of an accepted type (all=True), the physical ones otherwise
+        listed = list(vols) if all else [m for m in vols if _fstype(m) in _PHYSICAL]
+        shim.trace.append(['list_mounts', [], ['ok', listed]])
+        return [_P(m) for m in listed]
     psutil.disk_partitions = disk_partitions
     # restore's logger writes to stderr
     import logging
